@@ -14,6 +14,10 @@ distinct) sub-expressions, and nodes with different operand counts.
               numbers with a different relative order (comparators do not read them)
   C29-ctor    Sum.__new__, Product.__new__ and Inner.__new__ are lifted on both operand orders of
               every distinguishable pair: the node built has the same operand tuple either way
+  C29-dag     generated family: one operator tree over every assignment of its 3 leaf positions to two leaf
+              values, each available as two equal-but-distinct objects (64 object-sharing variants of 8
+              structures): the sign of cmp_expr depends on the structure only - zero exactly for equal
+              structures, the same for all variants of a pair of structures.
 """
 
 from __future__ import annotations
